@@ -110,7 +110,7 @@ def run_gosym(workdir, programs, workers=None, samples=3, solver="z3", tag="run"
     return res, r.returncode
 
 
-def native_replay(workdir, pkgdir, replay_paths, timeout=600):
+def native_replay(workdir, pkgdir, replay_paths, timeout=600, repeat=0):
     """Run the harnesses of pkgdir natively on the replay files. Returns {path: {result, events, reach}}"""
     pkgname, names = pkg_harnesses(pkgdir)
     testsrc = "package %s\n\nimport (\n\t\"testing\"\n\t\"%s/internal/verifrt\"\n)\n\nfunc TestVerifReplay(t *testing.T) {\n\tverifrt.RunNative(map[string]func(){\n" % (pkgname, MODULE)
@@ -125,6 +125,8 @@ def native_replay(workdir, pkgdir, replay_paths, timeout=600):
     ovp = os.path.join(workdir, "native_overlay_%s.json" % pkgdir.replace("/", "_").replace(".", "root"))
     json.dump({"Replace": ov}, open(ovp, "w"), indent=1)
     env = dict(GOENV, VERIF_REPLAY=":".join(replay_paths))
+    if repeat:
+        env["VERIF_REPLAY_REPEAT"] = str(repeat)
     try:
         r = subprocess.run(["go", "test", "-v", "-vet=off", "-count=1", "-run", "^TestVerifReplay$", "-timeout", "%ds" % timeout, "-overlay", ovp, "./" + pkgdir],
                            cwd=REPO, env=env, capture_output=True, text=True, timeout=timeout + 60)
@@ -305,12 +307,16 @@ def run_check(prop, P, tier, seed):
     for r in results:
         if r["status"] in ("inconclusive", "error"):
             inconclusive.append("%s %s: %s %s" % (r["harness"], r.get("params"), r.get("error", ""), r.get("inconclusive")))
-        seen = set()
+        seen = {}
         for v in r.get("violations") or []:
             key = (v["harness"], v["kind"], v["label"])
-            if key in seen:
+            # one counterexample per label; for counterexamples that depend on the map iteration
+            # order up to 6 alternatives are kept: the engine explores every permutation, the Go
+            # runtime produces only some of them (small maps iterate in a rotation of slot order)
+            if seen.get(key, 0) >= (6 if v.get("map_order_nondet") else 1):
                 continue
-            seen.add(key)
+            seen[key] = seen.get(key, 0) + 1
+            v["_alt"] = seen[key] - 1
             rp = write_replay(replays_dir, prop, v, v["harness"], v.get("params"), {"label": v["label"], "kind": v["kind"], "site": v.get("site"), "msg": v.get("msg"), "map_order_nondet": v.get("map_order_nondet", False)})
             by_pkg.setdefault(r["_pkgdir"], []).append((rp, v))
     race_test = P.get("native_race_test")
@@ -344,19 +350,27 @@ def run_check(prop, P, tier, seed):
             nat = {rp: {"result": "skipped"} for rp, _ in items}
         else:
             nat = native_replay(work, pkgdir, [rp for rp, _ in items])
+        confirmed = set()
+        pending_mismatch = {}
         for rp, v in items:
+            vkey = (v["harness"], v["kind"], v["label"])
+            if vkey in confirmed:
+                continue  # an alternative counterexample for this label already reproduced
             nr = nat.get(rp, {"result": "not-run"})
             ok = no_native or native_reproduces(v, nr, P.get("native_any_label", False))
             if not ok and v.get("map_order_nondet"):
                 # map iteration order cannot be forced natively: re-run a bounded number of times
-                for _ in range(int(os.environ.get("VERIF_MAPORDER_RETRIES", "40"))):
-                    nr = native_replay(work, pkgdir, [rp]).get(rp, {"result": "not-run"})
+                # (each process repeats the replay up to 200 times until it fails: Go re-randomises
+                # the iteration order on every range statement)
+                for _ in range(int(os.environ.get("VERIF_MAPORDER_RETRIES", "5"))):
+                    nr = native_replay(work, pkgdir, [rp], repeat=200).get(rp, {"result": "not-run"})
                     if native_reproduces(v, nr, P.get("native_any_label", False)):
                         ok = True
                         break
             if not ok:
-                engine_mismatch.append("counterexample for %s/%s did not reproduce natively: %s (replay %s)" % (v["harness"], v["label"], nr.get("result"), rp))
+                pending_mismatch.setdefault(vkey, "counterexample for %s/%s did not reproduce natively: %s (replay %s)" % (v["harness"], v["label"], nr.get("result"), rp))
                 continue
+            confirmed.add(vkey)
             k = match_known(known, v)
             if k is not None:
                 known_lines.append("KNOWN-FINDING: property=%s %s [%s/%s]" % (prop, k.get("text", ""), v["harness"], v["label"]))
@@ -364,6 +378,9 @@ def run_check(prop, P, tier, seed):
                 n_viol_reported += 1
                 viol_lines.append("VIOLATION property=%s replay=%s" % (prop, rp))
                 log("  violation: harness=%s label=%s kind=%s site=%s msg=%s native=%s" % (v["harness"], v["label"], v["kind"], v.get("site"), v.get("msg"), nr.get("result")))
+        for vkey, msg in pending_mismatch.items():
+            if vkey not in confirmed:
+                engine_mismatch.append(msg)
     # ---- witness validation of passing paths
     validated = 0
     wv_mismatch = []
